@@ -233,3 +233,31 @@ Definition pi_run (m : mdp) (h : nat) (tol : Q) (fuel : nat) : option (nat * mat
   pi_run_with (nS m) (nA m) (compute_q m (imm_rewards m)) (gam m) h tol fuel.
 Definition pi_run_g (g : gmodel) (h : nat) (tol : Q) (fuel : nat) : option (nat * mat) :=
   pi_run_with (gS g) (gA g) (compute_q_g g (imm_rewards_g g)) (ggam g) h tol fuel.
+
+(* ------------------------------------------------------------------ mutating an existing model object *)
+(* A long-lived solver (PolicyEvaluation holds a reference to its model; ValueIteration / PolicyIteration /
+   LinearProgramming objects are called again) must see the model's CURRENT tables.  The object state is
+   an [mdp]; the setters below are the table setters of MDP::Model / MDP::SparseModel. *)
+(* src: Model.hpp:setTransitionFunction(t): transitions_[a](s,s1) = t[s][a][s1]; rewards_ untouched *)
+Definition obj_set_t (m : mdp) (t : list (list vec)) : mdp :=
+  {| nS := nS m; nA := nA m;
+     P := map (fun a => map (fun s => map (fun s1 => tab3 t s a s1) (seq 0 (nS m))) (seq 0 (nS m))) (seq 0 (nA m));
+     R := R m; gam := gam m |}.
+(* src: Model.hpp:setRewardFunction(r): rewards_(s,a) = sum_s1 r[s][a][s1] * transitions_[a](s,s1)
+   with the transitions stored AT THAT TIME *)
+Definition obj_set_r (m : mdp) (r : list (list vec)) : mdp :=
+  {| nS := nS m; nA := nA m; P := P m;
+     R := mtab (nS m) (nA m) (fun s a => accum 0 (fun s1 => tab3 r s a s1 * nthq (trow m s a) s1) (nS m));
+     gam := gam m |}.
+(* src: Model.cpp:setDiscount *)
+Definition obj_set_d (m : mdp) (d : Q) : mdp := {| nS := nS m; nA := nA m; P := P m; R := R m; gam := d |}.
+(* src: SparseModel.hpp:setTransitionFunction / setRewardFunction (entries <= 1e-6 not stored; the
+   validation of the stored table is sparse_accepts and is not repeated here) *)
+Definition sobj_set_t (m : mdp) (t : list (list vec)) : mdp :=
+  {| nS := nS m; nA := nA m;
+     P := map (fun a => map (fun s => map (fun s1 => drop_small (tab3 t s a s1)) (seq 0 (nS m))) (seq 0 (nS m))) (seq 0 (nA m));
+     R := R m; gam := gam m |}.
+Definition sobj_set_r (m : mdp) (r : list (list vec)) : mdp :=
+  {| nS := nS m; nA := nA m; P := P m;
+     R := mtab (nS m) (nA m) (fun s a => drop_small (accum 0 (fun s1 => tab3 r s a s1 * nthq (trow m s a) s1) (nS m)));
+     gam := gam m |}.
